@@ -337,6 +337,12 @@ func (e *Explorer) verdicts(x *Exec, prefix []int) {
 // frame below the runtime's panic machinery is a zz_verif file): that is a bug of the
 // machinery, reported as an internal error, never as a property violation.
 func harnessPanic(p string) bool {
+	if strings.Contains(p, "unlock of unlocked mutex") && !strings.Contains(p, "zz_verif_") {
+		// raised by the lock shim, but it is the library's misuse (sync.Mutex would end the
+		// process with a fatal error): typically the second panic of a deferred Unlock after a
+		// first panic in a section that had released the lock
+		return false
+	}
 	lines := strings.Split(p, "\n")
 	seenPanic := false
 	for i, l := range lines {
